@@ -1057,9 +1057,11 @@ func (m *Dot11) DecodeFromBytes(data []byte, df gopacket.DecodeFeedback) error {
 		df.SetTruncated()
 		return fmt.Errorf("Dot11 length %v too short, %v required", len(data), 10)
 	}
+	// the addresses, sequence control, QOS, HTControl and data layer are only
+	// present in some frame types: do not keep those of an earlier decode
+	*m = Dot11{}
 	m.Type = Dot11Type((data[0])&0xFC) >> 2
 
-	m.DataLayer = nil
 	m.Proto = uint8(data[0]) & 0x0003
 	m.Flags = Dot11Flags(data[1])
 	m.DurationID = binary.LittleEndian.Uint16(data[2:4])
